@@ -137,6 +137,52 @@ pub fn run(args: &Args, prop: &str) {
         });
         families.push(json!({"family": name, "universes": dags.len(), "executions": ex}));
     }
+    if prop == "C07" {
+        // Backend fault: the head-set commit of the action fails with an I/O error after the policy
+        // succeeded. The action must fail atomically (state unchanged, no effects committed); a
+        // retry without the fault must then succeed.
+        let mut dags: Vec<Dag> = Vec::new();
+        for_each_universe(&uni(1, if args.tier == Tier::Thorough { 5 } else { 4 }, 0), |d| dags.push(d.clone()));
+        let scr = scripts(2, false);
+        let filter: crate::props::simrun::Filter = |c, _| matches!(c, "action-outcome" | "action-sink" | "failed-op-changed-state" | "heads" | "cmdset" | "facts" | "effects" | "history-shrank");
+        let ex = crate::props::simrun::run_all_faulty(&mut rep, "fault", &dags, oracles, filter, |d, f| {
+            bounded_histories(d, 0, false, |h| {
+                let base = base_events(h);
+                for s in scr.iter().filter(|s| s.fail_after.is_none() && !s.publish.is_empty()) {
+                    let mut evs = base.clone();
+                    evs.push(Ev::FailNextCommit);
+                    evs.push(Ev::Action(s.clone()));
+                    evs.push(Ev::Action(s.clone()));
+                    f(&evs);
+                }
+            });
+        });
+        families.push(json!({"family": "backend commit fault during the action's head-set commit, then retry", "universes": dags.len(), "executions": ex}));
+        rep.require_nonzero("faults_fired");
+    }
+    if prop == "C04" {
+        // A sync transaction whose final head-set commit is refused by the backend (I/O error) must
+        // leave queries and a following action in agreement (the in-memory head set must not run
+        // ahead of the committed fact cache).
+        let mut dags: Vec<Dag> = Vec::new();
+        for_each_universe(&uni(3, if args.tier == Tier::Thorough { 5 } else { 4 }, 0), |d| dags.push(d.clone()));
+        let filter: crate::props::simrun::Filter = |c, _| matches!(c, "action-view" | "lazy-merge-view" | "action-parent" | "hello-vs-collapse" | "hello" | "failed-op-changed-state");
+        let ex = crate::props::simrun::run_all_faulty(&mut rep, "fault", &dags, oracles, filter, |d, f| {
+            let n = d.len();
+            let evs = vec![
+                Ev::Add { trx: 0, nodes: (0..n - 1).collect() },
+                Ev::Commit { trx: 0 },
+                Ev::FailNextCommit,
+                Ev::Add { trx: 1, nodes: vec![n - 1] },
+                Ev::Commit { trx: 1 },
+                Ev::Action(pub1.clone()),
+                Ev::Action(follow.clone()),
+            ];
+            f(&evs);
+        });
+        families.push(json!({"family": "backend refuses the head-set commit of a sync transaction, then an action", "universes": dags.len(), "executions": ex}));
+        rep.require_nonzero("faults_fired");
+    }
     rep.require_nonzero("ok_actions");
     rep.require_nonzero("collapses");
     rep.require_nonzero("action_views_checked");
